@@ -43,6 +43,10 @@ structure Env where
   selfCls : Nat
   /-- `re.compile(regex_k).match(s) is not None` (String trait; parameter). -/
   rx : Nat → String → Bool
+  /-- `numpy.asarray(value[, dtype])` of a list / tuple: dtype code and shape, or an exception (Array trait; parameter). -/
+  asarray : Val → Option Nat → Except Exc (Nat × List Nat) := fun _ _ => .error .valueError
+  /-- `numpy.can_cast(from, to, casting)`: does `astype(to, casting=…)` succeed (Array trait; parameter). -/
+  canCast : Nat → Nat → Nat → Bool := fun _ _ _ => true
   /-- `w` is an adapter object offering protocol `cls` (used by the domain predicate only). -/
   provides : Val → Ty → Bool := fun _ _ => false
   /-- `w` is a value validator function `f` may return (used by the domain predicate only). -/
